@@ -22,21 +22,24 @@
 From SG Require Import Base.Prelude C01.ChanCache C01.ChanCacheLists C01.Notify.
 Open Scope N_scope.
 
-(* channel map of the document: None = in the channel; Some (s, rev) = left it at sequence s, rev being
-   the revision that removed it *)
+(* channel map of the document: None = in the channel; Some (s, rev, del) = left it at sequence s, rev
+   being the revision that removed it and del telling whether that revision was a deletion.
+   sd_del: the document's current revision is a tombstone (the Deleted bit of sync.flags). *)
 Record syncd := mkSD {
-  sd_seq : N; sd_rev : N; sd_recent : list N; sd_unused : list N;
-  sd_chans : list (N * option (N * N)) }.
+  sd_seq : N; sd_rev : N; sd_del : bool; sd_recent : list N; sd_unused : list N;
+  sd_chans : list (N * option (N * N * bool)) }.
 
+(* del = the Deleted bit of LogEntry.Flags: taken from sync.flags for the entry of the current
+   revision, NOT set on a reconstructed removal entry (only DocID, RevID and Channels are filled in) *)
 Inductive dlv :=
 | DUnused (seq : N)
-| DEntry (coll seq doc rev : N) (skipped : bool) (chs : list (N * option N)).
+| DEntry (coll seq doc rev : N) (del : bool) (skipped : bool) (chs : list (N * option N)).
 
-Definition removed_at (seq : N) (cr : N * option (N * N)) : bool :=
-  match snd cr with Some (s, _) => s =? seq | None => false end.
+Definition removed_at (seq : N) (cr : N * option (N * N * bool)) : bool :=
+  match snd cr with Some (s, _, _) => s =? seq | None => false end.
 
-Definition chan_seqs (chs : list (N * option (N * N))) : list (N * option N) :=
-  map (fun cr => (fst cr, option_map fst (snd cr))) chs.
+Definition chan_seqs (chs : list (N * option (N * N * bool))) : list (N * option N) :=
+  map (fun cr => (fst cr, option_map (fun x => fst (fst x)) (snd cr))) chs.
 
 Definition current_seq (sd : syncd) : N := match sd_unused sd with u :: _ => u | [] => sd_seq sd end.
 
@@ -47,31 +50,31 @@ Definition reconstruct (coll doc : N) (sd : syncd) (next : N) (skipped : list N)
     match filter (removed_at seq) (sd_chans sd) with
     | [] => [DUnused seq]
     | (c, r) :: rest =>
-        let rev := match r with Some (_, rv) => rv | None => 0 end in
-        [DEntry coll seq doc rev is_sk (chan_seqs ((c, r) :: rest))]
+        let rev := match r with Some (_, rv, _) => rv | None => 0 end in
+        [DEntry coll seq doc rev false is_sk (chan_seqs ((c, r) :: rest))]
     end
   else [].
 
 Definition doc_changed (coll doc : N) (sd : syncd) (next : N) (skipped : list N) : list dlv :=
   map DUnused (sd_unused sd)
   ++ flat_map (reconstruct coll doc sd next skipped) (sd_recent sd)
-  ++ [DEntry coll (sd_seq sd) doc (sd_rev sd) false (chan_seqs (sd_chans sd))].
+  ++ [DEntry coll (sd_seq sd) doc (sd_rev sd) (sd_del sd) false (chan_seqs (sd_chans sd))].
 
-(* what AddToCache adds, and to which (collection, channel) cache: (seq, doc, rev, removal flag) *)
-Definition to_caches (d : dlv) : list (N * N * (N * N * N * bool)) :=
+(* what AddToCache adds, and to which (collection, channel) cache: (seq, doc, rev, removal flag, deleted flag) *)
+Definition to_caches (d : dlv) : list (N * N * (N * N * N * bool * bool)) :=
   match d with
   | DUnused _ => []
-  | DEntry coll seq doc rev _ chs =>
-      map (fun cr => (coll, fst cr, (seq, doc, rev, is_removal cr))) (filter (concerned seq) chs)
+  | DEntry coll seq doc rev del _ chs =>
+      map (fun cr => (coll, fst cr, (seq, doc, rev, is_removal cr, del))) (filter (concerned seq) chs)
   end.
 
 (* what a channel query returns for this document in channel c: the current revision if the document
    is in the channel, the removal (sequence, revision) if it left it *)
-Definition query_entry (sd : syncd) (c : N) : option (N * N * bool) :=
+Definition query_entry (sd : syncd) (c : N) : option (N * N * bool * bool) :=
   match find (fun cr => fst cr =? c) (sd_chans sd) with
   | None => None
-  | Some (_, None) => Some (sd_seq sd, sd_rev sd, false)
-  | Some (_, Some (s, rv)) => Some (s, rv, true)
+  | Some (_, None) => Some (sd_seq sd, sd_rev sd, false, sd_del sd)
+  | Some (_, Some (s, rv, d)) => Some (s, rv, true, d)
   end.
 
 (* ---------- the collection is preserved ---------- *)
@@ -93,9 +96,9 @@ Qed.
 (* ---------- the current revision reaches every channel the document is in ---------- *)
 Theorem dedup_delivers_current coll doc sd next skipped c :
   In (c, None) (sd_chans sd) ->
-  In (coll, c, (sd_seq sd, doc, sd_rev sd, false)) (flat_map to_caches (doc_changed coll doc sd next skipped)).
+  In (coll, c, (sd_seq sd, doc, sd_rev sd, false, sd_del sd)) (flat_map to_caches (doc_changed coll doc sd next skipped)).
 Proof.
-  intros H. apply in_flat_map. exists (DEntry coll (sd_seq sd) doc (sd_rev sd) false (chan_seqs (sd_chans sd))).
+  intros H. apply in_flat_map. exists (DEntry coll (sd_seq sd) doc (sd_rev sd) (sd_del sd) false (chan_seqs (sd_chans sd))).
   split; [unfold doc_changed; apply in_or_app; right; apply in_or_app; right; cbn; auto|].
   cbn [to_caches]. apply in_map_iff. exists (c, None). split; [reflexivity|].
   apply filter_In. split; [|reflexivity]. unfold chan_seqs. apply in_map_iff. exists (c, None). auto.
@@ -105,23 +108,23 @@ Qed.
 (* [s] never arrived on its own: it is listed in recent_sequences and either still expected by the
    cache (next <= s) or already declared skipped.  All removals at one sequence carry the same
    revision (they were made by the same write). *)
-Theorem dedup_delivers_removal coll doc sd next skipped c s rv :
-  In (c, Some (s, rv)) (sd_chans sd) ->
-  (forall c' rv', In (c', Some (s, rv')) (sd_chans sd) -> rv' = rv) ->
+Theorem dedup_delivers_removal coll doc sd next skipped c s rv dl :
+  In (c, Some (s, rv, dl)) (sd_chans sd) ->
+  (forall c' rv' dl', In (c', Some (s, rv', dl')) (sd_chans sd) -> rv' = rv) ->
   In s (sd_recent sd) -> s < current_seq sd ->
   (next <= s \/ In s skipped) ->
-  In (coll, c, (s, doc, rv, true)) (flat_map to_caches (doc_changed coll doc sd next skipped)).
+  In (coll, c, (s, doc, rv, true, false)) (flat_map to_caches (doc_changed coll doc sd next skipped)).
 Proof.
   intros Hc Hrev Hs Hcur Hw. apply in_flat_map.
-  assert (In (c, Some (s, rv)) (filter (removed_at s) (sd_chans sd))) as Hf.
+  assert (In (c, Some (s, rv, dl)) (filter (removed_at s) (sd_chans sd))) as Hf.
   { apply filter_In. split; auto. unfold removed_at; cbn. apply N.eqb_refl. }
   destruct (filter (removed_at s) (sd_chans sd)) as [|[c0 r0] rest] eqn:Ef; [destruct Hf|].
   assert (In (c0, r0) (sd_chans sd) /\ removed_at s (c0, r0) = true) as [H0 R0].
   { apply filter_In. rewrite Ef. cbn; auto. }
-  unfold removed_at in R0; cbn in R0. destruct r0 as [[s0 rv0]|]; [|discriminate]. apply N.eqb_eq in R0. subst s0.
+  unfold removed_at in R0; cbn in R0. destruct r0 as [[[s0 rv0] dl0]|]; [|discriminate]. apply N.eqb_eq in R0. subst s0.
   assert (rv0 = rv) by (eapply Hrev; eauto). subst rv0.
   set (is_sk := (s <? current_seq sd) && (s <? next) && memN s skipped).
-  exists (DEntry coll s doc rv is_sk (chan_seqs ((c0, Some (s, rv)) :: rest))). split.
+  exists (DEntry coll s doc rv false is_sk (chan_seqs ((c0, Some (s, rv, dl0)) :: rest))). split.
   - unfold doc_changed. apply in_or_app; right. apply in_or_app; left. apply in_flat_map. exists s. split; auto.
     unfold reconstruct. fold is_sk.
     assert (((next <=? s) && (s <? current_seq sd)) || is_sk = true) as ->.
@@ -129,15 +132,15 @@ Proof.
     rewrite Ef. cbn; auto.
   - cbn [to_caches]. apply in_map_iff. exists (c, Some s). split; [reflexivity|].
     apply filter_In. split; [|unfold concerned; cbn; apply N.eqb_refl].
-    unfold chan_seqs. apply in_map_iff. exists (c, Some (s, rv)). split; auto.
+    unfold chan_seqs. apply in_map_iff. exists (c, Some (s, rv, dl)). split; auto.
 Qed.
 
 (* every entry handed to a cache is what the channel query says about the document, or a removal
    the document's channel map records (nothing is invented) *)
-Theorem dedup_sound coll doc sd next skipped coll' c s d rv rm :
-  In (coll', c, (s, d, rv, rm)) (flat_map to_caches (doc_changed coll doc sd next skipped)) ->
-  d = doc /\ ((s = sd_seq sd /\ rv = sd_rev sd /\ exists r, In (c, r) (sd_chans sd)) \/
-              (rm = true /\ exists rv', In (c, Some (s, rv')) (sd_chans sd))).
+Theorem dedup_sound coll doc sd next skipped coll' c s d rv rm dl :
+  In (coll', c, (s, d, rv, rm, dl)) (flat_map to_caches (doc_changed coll doc sd next skipped)) ->
+  d = doc /\ ((s = sd_seq sd /\ rv = sd_rev sd /\ dl = sd_del sd /\ exists r, In (c, r) (sd_chans sd)) \/
+              (rm = true /\ dl = false /\ exists rv' dl', In (c, Some (s, rv', dl')) (sd_chans sd))).
 Proof.
   intros H. apply in_flat_map in H as [x [Hd Hx]]. unfold doc_changed in Hd.
   apply in_app_or in Hd as [Hd|Hd]; [apply in_map_iff in Hd as [u [<- _]]; destruct Hx|].
@@ -148,9 +151,28 @@ Proof.
     destruct Hd as [<-|[]]. cbn [to_caches] in Hx. apply in_map_iff in Hx as [[c1 r1] [E Hf]].
     inversion E; subst. apply filter_In in Hf as [Hf _]. unfold chan_seqs in Hf. apply in_map_iff in Hf as [[c2 r2] [E2 Hin]].
     cbn in E2. inversion E2; subst. rewrite <- Ef in Hin. apply filter_In in Hin as [Hin Hr].
-    unfold removed_at in Hr; cbn in Hr. destruct r2 as [[s2 rv2]|]; [|discriminate]. apply N.eqb_eq in Hr; subst.
-    split; auto. right. split; [reflexivity|]. eauto.
+    unfold removed_at in Hr; cbn in Hr. destruct r2 as [[[s2 rv2] dl2]|]; [|discriminate]. apply N.eqb_eq in Hr; subst.
+    split; auto. right. split; [reflexivity|]. split; [reflexivity|]. eauto.
   - destruct Hd as [<-|[]]. cbn [to_caches] in Hx. apply in_map_iff in Hx as [[c1 r1] [E Hf]].
     inversion E; subst. apply filter_In in Hf as [Hf _]. unfold chan_seqs in Hf. apply in_map_iff in Hf as [[c2 r2] [E2 Hin]].
     cbn in E2. inversion E2; subst. split; auto. left. repeat split; auto. eauto.
+Qed.
+
+(* ---------- what is FALSE in the unchanged code ---------- *)
+(* "the reconstructed removal IS the entry the channel query returns for the document": not when the
+   deduplicated revision was a deletion -- the query returns the removal with its Deleted flag (rDel),
+   the reconstructed LogEntry never carries it.  A warm cache and a cold one then answer differently. *)
+Definition dedup_removal_is_query_entry_full_statement : Prop :=
+  forall coll doc sd next skipped c s rv dl,
+    query_entry sd c = Some (s, rv, true, dl) ->
+    In s (sd_recent sd) -> s < current_seq sd -> (next <= s \/ In s skipped) ->
+    In (coll, c, (s, doc, rv, true, dl)) (flat_map to_caches (doc_changed coll doc sd next skipped)).
+
+Lemma dedup_removal_is_query_entry_refuted : ~ dedup_removal_is_query_entry_full_statement.
+Proof.
+  intros H.
+  (* doc deleted at #2 (leaving channel 2), resurrected at #3 into channel 3; the mutation #2 was deduplicated *)
+  specialize (H 5 1 (mkSD 3 30 false [1; 2; 3] [] [(2, Some (2, 20, true)); (3, None)]) 2 [] 2 2 20 true
+                eq_refl ltac:(cbn; auto) ltac:(cbn; lia) ltac:(left; lia)).
+  cbn in H. repeat (destruct H as [H|H]; [discriminate|]). exact H.
 Qed.
